@@ -1,4 +1,5 @@
 ---- MODULE ScopeData ----
+EXTENDS Integers
 (* Sample scope facts matching the sample execution in XData.tla (main at 100..120 calls f at 200..212), so that
    TraceScope / ScopeSession parse stand-alone.  Real checks generate this module from a puppet binary's DWARF
    (tools/c19_dwarf.py: tla_module) into the work directory that also holds the generated XData.tla. *)
